@@ -58,8 +58,10 @@ def enc_obs(o):
     if head[0] == "writeerr": return ("writeerr " + head[1], "", attrs)
     return (" ".join(head), "", attrs)
 
+LAST_ENV = {}
 def run_enc(pid, lines):
     env, fm = C.oracle_env(pid, lines)
+    LAST_ENV[pid] = env
     impl = C.implrun(lines)
     model = C.modelrun(lines, env=env)
     return impl, model
@@ -136,12 +138,29 @@ def c12(res, rng, tier):
             for su in "01":
                 lines.append("enc %d %s - %s" % (p, su, t)); meta.append((v, p, su))
     impl, model = run_enc("C12", lines)
+    # theorem C12_conformance speaks about EncProg.program; its instruction table (Insn.asm / iproto /
+    # sd_step) is compared with pickletools on the implementation's own bytes
+    progs = C.modelrun(["prog " + l.split(" ", 4)[1] + " " + l.split(" ", 4)[2] + " " + l.split(" ", 4)[4] for l in lines], env=LAST_ENV["C12"])
     nontriv = 0
+    table_checked, insn_seen = 0, {}
     p2, p2meta = [], []
     bad_idx = set()
     for i, io in enumerate(impl):
         v, p, su = meta[i]
         cls, hexb, attrs = enc_obs(io)
+        if cls == "ok" and progs[i].startswith("ok "):
+            toks = progs[i][3:].split()
+            wf = toks.pop()
+            if "".join(t.split(":")[0] for t in toks) == hexb:
+                table_checked += 1
+                for t in toks: insn_seen[t[:2]] = insn_seen.get(t[:2], 0) + 1
+                why = pkl.insn_table_mismatch(bytes.fromhex(hexb), toks)
+                if why is None and wf != "#wf":
+                    why = "Insn.sd_run rejects the program"
+                if why:
+                    res.violation("instruction table of the model disagrees with pickletools: %s" % why,
+                                  {"kind": "correspondence", "theorem": "C12_conformance / Insn.v", "case": lines[i][:600],
+                                   "output_hex": hexb[:2000], "program": progs[i][:1500]})
         if not (0 <= p <= 5):
             if not cls.startswith("err") or attrs.get("writes") != "0":
                 bad_idx.add(i)
@@ -179,6 +198,7 @@ def c12(res, rng, tier):
         "evaluations": len(lines), "distinct_nontrivial": nontriv,
         "rule": "gate matrix (every documented Go type x size classes 0/1/255/256/257 x integer boundaries 2^7..2^64 +-1, zoo structs, pointers, nil pointers, unsupported kinds) + random value trees, x protocols -1..7 x StrictUnicode; each successful output scanned with CPython's pickletools (opcode -> introducing protocol, argument layout, stack effect; dis for stack discipline) and, for protocol <= 2, loaded by Python 2.7 cPickle; non-trivial = successful conformant outputs",
         "programs": len(lines), "disagreements_checked": len(lines), "value_kinds": kinds_hist(vals),
+        "outputs_scanned_against_model_program": table_checked, "opcodes_seen_in_programs": insn_seen,
         "python2_loaded": len(p2) if bad2 is not None else 0})
     res.samples = [{"case": lines[i][:160], "impl": impl[i][:160]} for i in range(0, len(lines), max(1, len(lines) // 6))]
 
@@ -338,7 +358,7 @@ def c03(res, rng, tier):
     dmodel = C.modelrun(dlines)
     # the round-trip theorem (Proofs/RoundTrip.v: encode_decode) predicts norm c v for every value
     # in its fragment; the prediction itself is checked against the implementation here
-    pred = C.modelrun(["norm " + l.split(" ", 4)[1] + " " + l.split(" ", 4)[2] + " " + l.split(" ", 4)[4] for l in lines])
+    pred = C.modelrun(["norm " + l.split(" ", 4)[1] + " " + l.split(" ", 4)[2] + " " + l.split(" ", 4)[4] for l in lines], env=LAST_ENV["C03"])
     in_fragment = 0
     nontriv = 0
     for j, do in enumerate(dimpl):
